@@ -10,13 +10,15 @@ PROBLEMS = [("restart_error", "restart-failed"), ("incomplete", "best-incomplete
             ("broadcast", "broadcast-before-durable"), ("own_diff", "own-block-differs-after-restart")]
 
 
-def run_stream(ctx, binp, seed, blocks, maxcuts, double, wedge=False):
-    out = ctx.tmp("cuts-%d%s" % (seed, "w" if wedge else ""))
+def run_stream(ctx, binp, seed, blocks, maxcuts, double, wedge=False, sideways=False):
+    out = ctx.tmp("cuts-%d%s" % (seed, "w" if wedge else "s" if sideways else ""))
     argv = [binp, "-out", out, "-seed", str(seed), "-blocks", str(blocks), "-maxcuts", str(maxcuts)]
     if double:
         argv.append("-double")
     if wedge:
         argv.append("-wedge")
+    if sideways:
+        argv.append("-sideways")
     rc, o = ctx.run(argv, timeout=1800)
     if rc == 3:
         raise Infra("crashcuts harness error: " + o[-1500:])
@@ -28,7 +30,7 @@ def run_stream(ctx, binp, seed, blocks, maxcuts, double, wedge=False):
         raise Infra("crashcuts failed rc=%s: %s" % (rc, o[-2000:]))
     d = json.load(open(os.path.join(out, "cuts.json")))
     events = read_ndjson(os.path.join(out, "trace.ndjson"))
-    how = dict(seed=seed, blocks=blocks, maxcuts=maxcuts, double=double, wedge=wedge)
+    how = dict(seed=seed, blocks=blocks, maxcuts=maxcuts, double=double, wedge=wedge, sideways=sideways)
     if d.get("engine_contract"):
         # thor's LevelEngine.Bulk no longer is one atomic batch: the writes the import relies on can be split by a crash
         rp = ctx.save_replay("seed%d-engine-contract.json" % seed, {"how": how, "engine_contract": d["engine_contract"]})
@@ -211,6 +213,13 @@ def run(ctx):
         if d is not None:
             cuts += len(d["cuts"])
             ctx.cov["wedge_streams_q_cuts"] = ctx.cov.get("wedge_streams_q_cuts", 0) + len(d["cuts"])
+    # a stale committed side head that conflicts with the finalized checkpoint (more than a third double COM votes): every
+    # restart after the other branch took over must leave the finalized checkpoint where it is (0220b12)
+    for s in range(1 if q else 4):
+        d = run_stream(ctx, binp, ctx.seed * 1000 + 700 + s, 0, 12 if q else 0, double=False, sideways=True)
+        if d is not None:
+            cuts += len(d["cuts"])
+            ctx.cov["sideways_streams_cuts"] = ctx.cov.get("sideways_streams_cuts", 0) + len(d["cuts"])
     ctx.cov["evaluations"] = cuts
     ctx.cov["distinct_nontrivial"] = cuts - seen_phases.get("none", 0)
     ctx.cov["cuts_by_phase"] = seen_phases
